@@ -155,6 +155,10 @@ def run_fmt(arg):
             for n_, (lo, hi, b_, c_) in enumerate([(300.0, 1000.0, 0.0, -8000.0), (10.0, 300.0, 400.0, 0.0), (300.0, 1000.0, -400.0, 0.0)]):
                 reacs.append(Reaction(["H", "H2"], ["H2", "H"], lo, hi, K, b_, c_, ReactionType.GAS_TWOBODY, len(reacs) + 1))
                 kept.append((f"diverging/{n_}", (lo, hi), ("diverging", n_)))
+            # reactions that share their file index with an earlier one (two files each numbered from 1) but not its window
+            for n_, (lo, hi, idx_) in enumerate([(300.0, 41000.0, 1), (-1.0, -1.0, 2), (5.0, 10.0, 3), (10.0, 100.0, 1)]):
+                reacs.append(Reaction(["H", "H2"], ["H2", "H"], lo, hi, K, 0.0, 0.0, ReactionType.GAS_TWOBODY, idx_))
+                kept.append((f"shared-index/{n_}", (lo, hi), ("shared-index", n_)))
             with quiet():
                 net = Network(reacs)
         else:
